@@ -36,7 +36,19 @@ def _crash_line(text):
     if not m:
         return None
     vec = [int(x) for x in m.group(3).split(",") if x]
-    return {"scenario": m.group(1), "signal": int(m.group(2)), "vector": vec}
+    ph = re.search(r"RT-HOST-CRASH [^\n]*\] phase=(\d+)", text)
+    return {"scenario": m.group(1), "signal": int(m.group(2)), "vector": vec, "phase": int(ph.group(1)) if ph else 0}
+
+
+def _crash_signature(crash):
+    """Stable signature of a process-level crash (a panic inside an `extern "C"`
+    frame aborts; the harness records what it was doing)."""
+    if crash.get("phase") == 1 and crash["signal"] == 6:
+        # a foreign C-ABI client re-entered waitable_register / waitable_unregister
+        # from its completion callback and the runtime panicked inside that entry point
+        return "callback:panic:reentrant-waitable-registration-from-completion-callback"
+    kind = {1001: "synchronous-wait-can-never-return", 1002: "violated-inside-synchronous-wait"}.get(crash["signal"], "signal-%d" % crash["signal"])
+    return "crash:%s:%s" % (kind, crash["scenario"])
 
 
 def _repo_frame(text):
@@ -175,7 +187,7 @@ def native_shards(plan, rep, bindir, tier, seed, scratch, tag, extra=None):
                     kind = {1001: "synchronous-wait-can-never-return", 1002: "violated-inside-synchronous-wait"}.get(crash["signal"], "signal-%d" % crash["signal"])
                     fatal = re.search(r"RT-HOST-FATAL ([^\n]*)", se or "")
                     rep.violations.append({
-                        "signature": "crash:%s:%s" % (kind, crash["scenario"]),
+                        "signature": _crash_signature(crash),
                         "what": "harness process died while running the runtime (%s); %s" % (kind, fatal.group(1) if fatal else (se or "")[-400:]),
                         "replay": {"scenario": crash["scenario"], "vector": crash["vector"], "needs_confirmation": True},
                     })
@@ -350,7 +362,7 @@ def confirm(plan, rep, bindir, scratch):
         if sig in again:
             v["_confirmed"] = True
             kept.append(v)
-        elif sig.startswith("crash:") and rc not in (0, None) and _crash_line(se or ""):
+        elif (sig.startswith("crash:") or rp.get("needs_confirmation")) and rc not in (0, None) and _crash_line(se or "") and _crash_signature(_crash_line(se or "")) == sig:
             v["_confirmed"] = True
             kept.append(v)
         else:
@@ -377,7 +389,7 @@ def replay(plan, rep, replay_doc, bindir, scratch):
         rc, so, se = _run([exe, "--replay", path, "--print", "1", "--out", out], 300, env=vcommon.base_env())
         if rc not in (0, None) and _crash_line(se or ""):
             c = _crash_line(se or "")
-            rep.violation(replay_doc.get("signature", "crash:%s" % c["scenario"]), "crash reproduced: %s" % (se or "")[-600:], rp)
+            rep.violation(_crash_signature(c), "crash reproduced: %s" % (se or "")[-600:], rp)
     try:
         with open(out) as f:
             rep.merge(json.load(f))
